@@ -3,7 +3,7 @@
 scratch worktree of /repo (outside /repo and /verif, removed afterwards) and the check of the seed's property is run
 there (VERIF_REPO). Evidence of these runs goes to a scratch directory. The result is written into the seed's meta.json
 (detection.<property>) and summarised on stdout. Runs JOBS seeds at a time (default 3).
-usage: tools/matrix.py [-j N] [seed-id ...]"""
+usage: tools/matrix.py [-j N] [--mutants] [id ...]"""
 import json, os, shutil, subprocess, sys, tempfile, glob
 from concurrent.futures import ThreadPoolExecutor
 
@@ -16,14 +16,25 @@ args = sys.argv[1:]
 jobs = 3
 if args[:1] == ["-j"]:
     jobs = int(args[1]); args = args[2:]
-ids = args or sorted(os.path.basename(os.path.dirname(m)) for m in glob.glob("/verif/seeded/*/meta.json"))
+mutants = args[:1] == ["--mutants"]
+if mutants:
+    # the reverted fixes and hand-written mutants in /verif/mutants, each under the property its file name starts with
+    args = args[1:]
+    ids = args or sorted(os.path.basename(m)[:-5] for m in glob.glob("/verif/mutants/*.diff"))
+else:
+    ids = args or sorted(os.path.basename(os.path.dirname(m)) for m in glob.glob("/verif/seeded/*/meta.json"))
 base = os.environ.get("TMPDIR") or "/var/tmp"
 
 def one(sid):
+    if mutants:
+        return one_patch(sid, sid.split("-")[0], f"/verif/mutants/{sid}.diff", None)
     d = f"/verif/seeded/{sid}"
     meta = json.load(open(f"{d}/meta.json"))
-    prop = meta["property"]
-    if meta.get("obsolete"):
+    return one_patch(sid, meta["property"], f"{d}/patch.diff", meta)
+
+def one_patch(sid, prop, patch, meta):
+    d = f"/verif/seeded/{sid}"
+    if meta is not None and meta.get("obsolete"):
         return sid, prop, "obsolete", 0
     wt = tempfile.mkdtemp(prefix="govc-mx-", dir=base); os.rmdir(wt)
     out = tempfile.mkdtemp(prefix="govc-mxo-", dir=base)
@@ -31,13 +42,14 @@ def one(sid):
         rc, o = sh(f"git -C /repo worktree add -q --detach {wt} HEAD")
         if rc != 0:
             return sid, prop, "worktree-failed", 0
-        rc, o = sh(f"git apply --recount --whitespace=nowarn {d}/patch.diff", cwd=wt)
+        rc, o = sh(f"git apply --recount --whitespace=nowarn {patch}", cwd=wt)
         if rc != 0:
             return sid, prop, "patch-does-not-apply", 0
         rc, o = sh(f"./check {prop} quick", cwd="/verif", env=dict(ENV, VERIF_REPO=wt, VERIF_OUT=out))
         v = [l for l in o.splitlines() if l.startswith("VIOLATION")]
-        meta.setdefault("detection", {})[prop] = {"exit": rc, "violations": [l[:300] for l in v[:6]], "n_violations": len(v)}
-        json.dump(meta, open(f"{d}/meta.json", "w"), indent=1)
+        if meta is not None:
+            meta.setdefault("detection", {})[prop] = {"exit": rc, "violations": [l[:300] for l in v[:6]], "n_violations": len(v)}
+            json.dump(meta, open(f"{d}/meta.json", "w"), indent=1)
         return sid, prop, "caught" if rc == 1 and v else "MISSED", len(v)
     finally:
         sh(f"git -C /repo worktree remove --force {wt}")
